@@ -16,8 +16,9 @@ specification side: `Abra.Lex.escape`/`spellQuoted` (`AbraModel/Literals.lean`, 
 * `C30_scan_finds_close` — on a printed literal the closing quote found is the one the printer wrote
   (the first unescaped one); `C30_quoted_roundtrip` — hence `'…'`/`"…"` literals lex to `s` and are
   consumed exactly.
-* `C30_strip_spec_partial` — indentation stripping of triple-quoted literals, stated on the collected
-  lines (see the `OPEN` note there for the text-level statement).
+* `C30_strip_spec` — a triple-quoted literal in block form denotes its lines with exactly the common
+  indentation (spaces and/or tabs) removed, joined by `\n` (`C30_strip_spec_partial` is the stage
+  after line collection).
 Float literals: the payload is the spelling without `_` (`C30_float_literal_token`); its value is
 `parse::<f64>` of that text (trusted, checked by the correspondence only).
 -/
@@ -315,12 +316,8 @@ theorem assemble_go (ind : List Char) (hind : IsIndent ind) (ls : List (List Cha
     included; at least one non-blank `lᵢ` starts with something that is neither space nor tab), the
     raw text handed to the escape decoder is exactly `l₁ \n … \n lₙ`: the common indentation —
     and nothing else — is removed, lines are joined by `\n`.
-    Restriction: the statement starts from the lines as `collectLines` files them (`classify`), not
-    from the source text.
-    -- OPEN: `lexTriple ('\n' :: (ls.flatMap (ind ++ · ++ ['\n'])) ++ ws ++ ['"','"','"'] ++ rest)
-    --        = (processEscapes (joinLines ls)).1 …` for lines without `\n` and `"""`, first line
-    --        non-blank — needs the scanning lemmas for `splitLine`/`collectLines` (fuel, `startsTriple`
-    --        over appends); not done for lack of time, the scan is covered by the correspondence. -/
+    This is the stage after the lines have been collected; `C30_strip_spec` below starts from the
+    source text. -/
 theorem C30_strip_spec_partial (ind : List Char) (hind : IsIndent ind) (ls : List (List Char))
     (ha : ∃ l ∈ ls, isBlank (ind ++ l) = false ∧ indentOf l = 0) :
     let lines := ls.map (fun l => classify (ind ++ l))
@@ -331,6 +328,170 @@ theorem C30_strip_spec_partial (ind : List Char) (hind : IsIndent ind) (ls : Lis
   refine ⟨h1, ?_⟩
   simp only [h1, assemble, Option.getD_some]
   exact assemble_go ind hind ls true
+
+
+-- ---------------------------------------------------------------- triple-quoted: from the source text
+
+/-- no three consecutive `"` -/
+def noTriple : List Char → Bool
+  | [] => true
+  | c :: t => !(c = '"' && t.head? = some '"' && t.tail.head? = some '"') && noTriple t
+
+theorem startsTriple_false_of_noTriple (c : Char) (t X : List Char) (h : noTriple (c :: t) = true) :
+    startsTriple (c :: (t ++ '\n' :: X)) = false := by
+  simp only [noTriple, Bool.and_eq_true, Bool.not_eq_true'] at h
+  obtain ⟨h1, _⟩ := h
+  cases t with
+  | nil => simp [startsTriple]
+  | cons a t' =>
+    cases t' with
+    | nil => simp [startsTriple]
+    | cons b t'' =>
+      simp only [List.head?_cons, List.tail_cons] at h1
+      simp only [List.cons_append]
+      unfold startsTriple
+      split
+      · rename_i heq
+        simp only [List.cons.injEq] at heq
+        obtain ⟨rfl, rfl, rfl, _⟩ := heq
+        simp at h1
+      · rfl
+
+theorem splitLine_line (u X : List Char) (hn : ∀ x ∈ u, x ≠ '\n') (ht : noTriple u = true) :
+    splitLine (u ++ '\n' :: X) = (u, .nl, X) := by
+  induction u with
+  | nil => simp [splitLine, startsTriple]
+  | cons c t ih =>
+    have hc := hn c (by simp)
+    have ht' : noTriple t = true := by
+      simp only [noTriple, Bool.and_eq_true] at ht; exact ht.2
+    simp only [List.cons_append, splitLine, startsTriple_false_of_noTriple c t X ht, Bool.false_eq_true, if_false, hc]
+    rw [ih (fun x hx => hn x (by simp [hx])) ht']
+
+theorem splitLine_close (w rest : List Char) (hw : ∀ x ∈ w, x = ' ' ∨ x = '\t') :
+    splitLine (w ++ '"' :: '"' :: '"' :: rest) = (w, .triple, rest) := by
+  induction w with
+  | nil => simp [splitLine, startsTriple]
+  | cons c t ih =>
+    have hc := hw c (by simp)
+    have hst : startsTriple (c :: (t ++ '"' :: '"' :: '"' :: rest)) = false := by
+      unfold startsTriple
+      split
+      · rename_i heq; simp only [List.cons.injEq] at heq; rcases hc with h | h <;> simp [h] at heq
+      · rfl
+    have hnl : c ≠ '\n' := by rcases hc with h | h <;> simp [h]
+    simp only [List.cons_append, splitLine, hst, Bool.false_eq_true, if_false, hnl]
+    rw [ih (fun x hx => hw x (by simp [hx]))]
+
+
+def bodyText (ind : List Char) (ls : List (List Char)) : List Char :=
+  ls.flatMap (fun l => ind ++ l ++ ['\n'])
+
+theorem all_ws_of_blanks (w : List Char) (hw : ∀ x ∈ w, x = ' ' ∨ x = '\t') : w.all isWhitespace = true := by
+  rw [List.all_eq_true]
+  intro x hx
+  rcases hw x hx with rfl | rfl <;> decide
+
+theorem collect_lines (ind w rest : List Char) (hw : ∀ x ∈ w, x = ' ' ∨ x = '\t') :
+    ∀ (ls : List (List Char)) (f off : Nat) (acc : List MLine) (starts : List Nat), ls.length < f →
+    (∀ l ∈ ls, (∀ x ∈ ind ++ l, x ≠ '\n') ∧ noTriple (ind ++ l) = true) →
+    (acc ≠ [] ∨ ls = [] ∨ ∃ l0 ls', ls = l0 :: ls' ∧ isBlank (ind ++ l0) = false) →
+    let r := collectLines f off acc starts false (bodyText ind ls ++ (w ++ '"' :: '"' :: '"' :: rest))
+    r.1 = acc ++ ls.map (fun l => classify (ind ++ l)) ∧ r.2.2.1 = false ∧ r.2.2.2 = rest := by
+  intro ls
+  induction ls with
+  | nil =>
+    intro f off acc starts hf _ _
+    cases f with
+    | zero => omega
+    | succ f =>
+      simp only [bodyText, List.flatMap_nil, List.nil_append, collectLines, splitLine_close w rest hw,
+        all_ws_of_blanks w hw, if_true, List.map_nil, List.append_nil]
+      exact ⟨trivial, trivial, trivial⟩
+  | cons l ls ih =>
+    intro f off acc starts hf hgood hacc
+    cases f with
+    | zero => omega
+    | succ f =>
+      obtain ⟨hn, ht⟩ := hgood l (by simp)
+      have hsplit := splitLine_line (ind ++ l) (bodyText ind ls ++ (w ++ '"' :: '"' :: '"' :: rest)) hn ht
+      have hbody : bodyText ind (l :: ls) ++ (w ++ '"' :: '"' :: '"' :: rest) =
+          (ind ++ l) ++ '\n' :: (bodyText ind ls ++ (w ++ '"' :: '"' :: '"' :: rest)) := by
+        simp [bodyText]
+      have hgood' : ∀ l' ∈ ls, (∀ x ∈ ind ++ l', x ≠ '\n') ∧ noTriple (ind ++ l') = true :=
+        fun l' hl' => hgood l' (by simp [hl'])
+      simp only [hbody, collectLines, hsplit]
+      cases hb : isBlank (ind ++ l) with
+      | true =>
+        have hb' : (ind ++ l).all isWhitespace = true := hb
+        simp only [hb', if_true]
+        have hne : acc ≠ [] := by
+          rcases hacc with h | h | ⟨l0, ls', heq, hnb⟩
+          · exact h
+          · cases h
+          · cases heq; rw [hb] at hnb; cases hnb
+        have hemp : acc.isEmpty = false := by cases acc <;> simp_all
+        simp only [hemp, Bool.false_eq_true, if_false]
+        have := ih f (off + (ind ++ l).length + 1) (acc ++ [.empty (ind ++ l)]) (starts ++ [off])
+          (by simp only [List.length_cons] at hf; omega) hgood' (Or.inl (by simp))
+        simp only [List.map_cons, classify_blank hb]
+        simpa [List.append_assoc] using this
+      | false =>
+        have hb' : (ind ++ l).all isWhitespace = false := hb
+        simp only [hb', Bool.false_eq_true, if_false]
+        have := ih f (off + (ind ++ l).length + 1) (acc ++ [.endsNewline (ind ++ l)]) (starts ++ [off])
+          (by simp only [List.length_cons] at hf; omega) hgood' (Or.inl (by simp))
+        simp only [List.map_cons, classify_nonblank hb]
+        simpa [List.append_assoc] using this
+
+
+theorem bodyText_length_ge (ind : List Char) (ls : List (List Char)) : ls.length ≤ (bodyText ind ls).length := by
+  induction ls with
+  | nil => simp [bodyText]
+  | cons l ls ih =>
+    have : bodyText ind (l :: ls) = (ind ++ l ++ ['\n']) ++ bodyText ind ls := by simp [bodyText]
+    rw [this]
+    simp only [List.length_append, List.length_cons, List.length_nil]
+    omega
+
+/-- **Indentation stripping, from the source text.**  A triple-quoted literal in block form —
+    opener, a line break, the lines `ind ++ l₁ ⏎ … ind ++ lₙ ⏎` (common indentation `ind` of spaces
+    and/or tabs; blank lines allowed after the first; no line contains a line break or three
+    consecutive quotes; some non-blank `lᵢ` starts with neither space nor tab), then blanks and the
+    closing `"""` — denotes the lines with exactly the common indentation removed, joined by `\n`,
+    escape-decoded; and exactly the text up to and including the closer is consumed. -/
+theorem C30_strip_spec (ind : List Char) (hind : IsIndent ind) (ls : List (List Char)) (w rest : List Char)
+    (hw : ∀ x ∈ w, x = ' ' ∨ x = '\t')
+    (hgood : ∀ l ∈ ls, (∀ x ∈ ind ++ l, x ≠ '\n') ∧ noTriple (ind ++ l) = true)
+    (hfirst : ∃ l0 ls', ls = l0 :: ls' ∧ isBlank (ind ++ l0) = false)
+    (ha : ∃ l ∈ ls, isBlank (ind ++ l) = false ∧ indentOf l = 0) :
+    let text := '\n' :: (bodyText ind ls ++ (w ++ '"' :: '"' :: '"' :: rest))
+    (lexTriple text).1 = (processEscapes (joinLines ls)).1 ∧
+      (lexTriple text).2.1 = text.length - rest.length := by
+  intro text
+  have hlen := bodyText_length_ge ind ls
+  have hc := collect_lines ind w rest hw ls text.length 1 [] [] (by
+    simp only [text, List.length_cons, List.length_append]; omega) hgood (Or.inr (Or.inr hfirst))
+  simp only [List.nil_append] at hc
+  obtain ⟨h1, h2, h3⟩ := hc
+  have hstrip := C30_strip_spec_partial ind hind ls ha
+  simp only at hstrip
+  have hfirststep : collectLines (text.length + 1) 0 [] [] true text =
+      collectLines text.length 1 [] [] false (bodyText ind ls ++ (w ++ '"' :: '"' :: '"' :: rest)) := by
+    simp only [text, collectLines, splitLine, startsTriple]
+    simp
+  unfold lexTriple
+  simp only [hfirststep]
+  generalize hr : collectLines text.length 1 [] [] false (bodyText ind ls ++ (w ++ '"' :: '"' :: '"' :: rest)) = r at h1 h2 h3
+  obtain ⟨lines, starts, flag, rest'⟩ := r
+  simp only at h1 h2 h3
+  subst h1 h2 h3
+  simp only [hstrip.2]
+  exact ⟨trivial, trivial⟩
+
+example : (lexTriple ('\n' :: (bodyText [' ', ' '] ["hello".toList, [], "  world".toList] ++ ([' '] ++ '"' :: '"' :: '"' :: [])))).1
+    = "hello\n\n  world".toList := by decide +kernel
+example : noTriple "say \\\"hi\\\" \"\" ok".toList = true := by decide +kernel
 
 
 -- ---------------------------------------------------------------- non-vacuity and worked instances
